@@ -225,3 +225,20 @@ void h_unobserve(void)
     __CPROVER_assert(impl.observers.present == impl1.observers.present && impl.observers.wval.n == vec0.n && impl.observers.wval.w.id == vec0.w.id, "F3b the witness session's list is untouched");
   }
 }
+
+/* ---- C02 "nothing is delivered for it after the close", at the Transport level.  Data reaches the application's data callback on two paths:
+ * (i) the engine's onData in Async mode - after the close the Transport has no filter (sync_ondata Y2), so this part rests on the engine never firing
+ *     a data event after the close of an id (tcp_close / udp_close_sites; natively: 60 rounds of stop() against active senders, TCP and UDP: 0 events);
+ * (ii) the Sync->Async flush loop of setReadMode, driven by an APPLICATION thread from the buffer. Clause AC1: an iteration that finds the buffer
+ *     closed (onClose has run its tombstone step: the close callback, the observers and the user-data cleanup have been delivered) invokes no data callback. ---- */
+void h_no_data_after_close(void)
+{
+  OC_SETUP
+  iora_fn cb; cb.set = nondet_bool(); G_data_calls = 0;
+  wbuf.flushing = 1;
+  __CPROVER_assume(impl.receiveBuffers.present && wbuf.closed);
+  int st = setReadMode_flush_step(self, W, &wbuf, cb);
+  IORA_CANARY("h_no_data_after_close: returns");
+  __CPROVER_assert(G_data_calls == 0, "AC1 after the close of a session its buffered bytes are not pushed to the data callback (they remain readable through receiveSync until PeerClosed)");
+  (void)st;
+}
